@@ -177,6 +177,15 @@ def run_check(pid: str, tier: str, fn) -> int:
         fn(chk)
         return chk.finish()
     except AnalysisError as e:
+        # a definite violation found before the analysis stopped is still a violation (exit 1); the part of the
+        # analysis that could not be completed is named, and evidence says so
+        known = {k['key'] for k in chk._known()}
+        if any(f.key not in known for f in chk.findings):
+            print(f'NOTE property={pid} analysis incomplete after the violation(s) below: {e}')
+            chk.extra['analysis_incomplete'] = str(e)
+            for r in chk.rules.values():
+                r['floor'] = 0      # floors of rules that never ran must not mask the violation
+            return chk.finish()
         print(f'ANALYSIS-ERROR property={pid} {e}')
         return 2
     except Exception:  # a crash of the analyser is never a violation
